@@ -236,7 +236,7 @@ impl Property for C06 {
     }
     fn required_features(&self, _tier: Tier) -> Vec<String> {
         [
-            "closed-by-application", "reduced", "missing-arg/checked", "missing-arg/with-case-variant-key-present", "facade-staged/checked", "examples/tx",
+            "closed-by-application", "reduced", "missing-arg/checked", "missing-arg/with-case-variant-key-present", "missing-arg/with-boundary-valued-other-arguments", "facade-staged/checked", "examples/tx",
             "pos-lang/param/outputs:Property[1]", "pos-lang/param/outputs:Struct", "pos-lang/param/inputs:ExpectInput.address", "pos-lang/param/inputs:ExpectInput.ref", "pos-lang/fees/inputs:ExpectInput.min_amount",
             "pos-lang/fees/outputs:Sub[1]", "pos-lang/input/outputs:IntoAssets", "pos-lang/input/outputs:IntoDatum", "pos-lang/param/adhoc.data.amount", "pos-lang/param/adhoc.data.redeemer", "pos-lang/param/adhoc:Struct",
             "pos-lang/param/validity.until", "pos-lang/param/validity:ComputeTimeToSlot", "pos-lang/param/metadata.value", "pos-lang/param/signers.signers", "pos-lang/param/inputs.redeemer", "pos-lang/param/mints.redeemer",
@@ -266,7 +266,22 @@ impl Property for C06 {
                     self.check_ir(ctx, &lowered, rng, &origin, true);
                     // (3) a missing reported argument is refused by name
                     let params = find_params(&lowered);
-                    let all: BTreeMap<String, ArgValue> = params.iter().map(|(k, t)| (k.clone(), arg_for(t, rng))).collect();
+                    // the arguments that *are* supplied: harmless ones, or (half of the time) integers from the
+                    // boundary set, with which some constant sub-expression may well fail to reduce - the absent
+                    // parameter must be named all the same
+                    let hostile = rng.bool();
+                    let all: BTreeMap<String, ArgValue> = params
+                        .iter()
+                        .map(|(k, t)| {
+                            (k.clone(), match t {
+                                Type::Int if hostile && rng.bool() => ArgValue::Int(rng.boundary_int()),
+                                _ => arg_for(t, rng),
+                            })
+                        })
+                        .collect();
+                    if hostile {
+                        ctx.count("missing-arg/with-boundary-valued-other-arguments");
+                    }
                     for missing in params.keys() {
                         let mut args = all.clone();
                         let v = args.remove(missing);
